@@ -105,30 +105,13 @@ theorem ordered_of_nestOK : ∀ (x : Call), Call.nestOK x → Call.ordered x
   | .node f t0 t1 kids, h => by
     simp only [Call.nestOK] at h
     simp only [Call.ordered]
-    exact ⟨by omega, ordered_of_allDurLe kids _ h.2⟩
+    exact ⟨h.1, ordered_of_allDurLe kids _ h.2.2⟩
 theorem ordered_of_allDurLe : ∀ (xs : Calls) (n : Nat), Calls.allDurLe n xs → Calls.ordered xs
   | .nil, _, _ => trivial
   | .cons x rest, n, h => by
     simp only [Calls.allDurLe] at h
     simp only [Calls.ordered]
     exact ⟨ordered_of_nestOK x h.2.1, ordered_of_allDurLe rest n h.2.2⟩
-end
-
-mutual
-/-- with -t 0 a timed call never sits on the boundary -/
-theorem noBoundary_zero_call (c : RCfg) (hnt : ∀ f, (c.trig f).time = none) : ∀ (x : Call), Call.nestOK x →
-    Call.noBoundary c 0 x
-  | .node f t0 t1 kids, h => by
-    simp only [Call.nestOK] at h
-    simp only [Call.noBoundary, hnt f, Option.getD_none]
-    exact ⟨by omega, noBoundary_zero_calls c hnt kids _ h.2⟩
-theorem noBoundary_zero_calls (c : RCfg) (hnt : ∀ f, (c.trig f).time = none) : ∀ (xs : Calls) (n : Nat),
-    Calls.allDurLe n xs → Calls.noBoundary c 0 xs
-  | .nil, _, _ => trivial
-  | .cons x rest, n, h => by
-    simp only [Calls.allDurLe] at h
-    simp only [Calls.noBoundary]
-    exact ⟨noBoundary_zero_call c hnt x h.2.1, noBoundary_zero_calls c hnt rest n h.2.2⟩
 end
 
 /-! ### no time filter: the look-ahead keeps everything -/
